@@ -69,10 +69,12 @@ def slice_assumptions(obl):
     return keep
 
 
-def check_z3(obl, rlimit, timeout_ms=60000, assumptions=None):
+def check_z3(obl, rlimit, timeout_ms=60000, assumptions=None, opts=None):
     s = z3.Solver()
     s.set('rlimit', rlimit)
     s.set('timeout', timeout_ms)
+    for k, v in (opts or {}).items():
+        s.set(k, v)
     for a in (obl.assumptions if assumptions is None else assumptions):
         s.add(a)
     s.add(z3.Not(obl.goal))
@@ -209,6 +211,15 @@ def discharge(obl, tier='quick', second_opinion=False, cvc5_ok=True):
         res['status'] = 'refuted'      # z3 reports sat on quantified input only after checking the model (else unknown)
         res['model'] = model
         return res
+    if quant:
+        # quantified obligations are sensitive to the instantiation strategy: a small portfolio (an `unsat` is a proof whichever
+        # configuration finds it; nothing else is concluded from these attempts)
+        for ass, opts in ((sl, {'smt.mbqi': False}), (obl.assumptions, {'smt.mbqi': False}), (sl, {'smt.random_seed': 7})):
+            r3, dt3, _, used3 = check_z3(obl, rl, assumptions=ass, opts=opts)
+            res['seconds'] += dt3
+            if r3 == 'unsat':
+                res.update({'status': 'proved', 'backend': 'z3', 'rlimit_used': used3, 'portfolio': str(opts)})
+                return res
     # candidate counter-model by finite instantiation (DESIGN 2.7 step 2): every quantifier is expanded over a small
     # universe, the result is quantifier-free and decided; the model is only ever used to build an input that is then
     # replayed on the real code
